@@ -199,21 +199,28 @@ def run_route(case: dict) -> CaseResult:
             cls = getattr(api_pb2, name)
             conn.add_message_callback(lambda m, _n=name: got.append((cur["i"], type(m).__name__, m.SerializeToString())), (cls,))
         tr = sess.dsess.transport
+        # frames are encoded once, in stream order; with "misalign" a read ends some bytes into the NEXT frame (its
+        # head rides with the chunk that completes the previous one), so frame k is complete -- and due -- at step k
+        raws, metas = [], []
         for k, (i, spec) in enumerate(case["frames"]):
+            if i not in tids:  # undeclared id: "nothing else is" in the table -> no class, no delivery
+                raws.append(sess.dsess.encode((i, bytes.fromhex(spec.get("hex", "")))))
+                metas.append(None)
+            else:
+                payload = pbgen.build(getattr(api_pb2, tids[i]), spec).SerializeToString()
+                raws.append(sess.dsess.encode((i, payload)))
+                metas.append((tids[i], payload))
+            if i == 5:
+                break
+        mis = list(case.get("misalign") or [])
+        shift = [0] + [max(0, min(mis[k % len(mis)], len(raws[k]) - 1)) if mis else 0 for k in range(1, len(raws))]
+        for k, raw in enumerate(raws):
             if tr.closing:
                 break
             cur["i"] = k
-            if i not in tids:  # undeclared id: "nothing else is" in the table -> no class, no delivery
-                tr.feed(sess.dsess.encode((i, bytes.fromhex(spec.get("hex", "")))))
-                continue
-            name = tids[i]
-            cls = getattr(api_pb2, name)
-            msg = pbgen.build(cls, spec)
-            payload = msg.SerializeToString()
-            expect.append((k, name, payload))
-            tr.feed(sess.dsess.encode((i, payload)))
-            if i == 5:
-                break
+            if metas[k] is not None:
+                expect.append((k, metas[k][0], metas[k][1]))
+            tr.feed(raw[shift[k]:] + (raws[k + 1][:shift[k + 1]] if k + 1 < len(raws) else b""))
         cur["i"] = -1
         env.log("send_phase")
         # reverse direction
@@ -259,7 +266,7 @@ def run_route(case: dict) -> CaseResult:
         for i in sorted(tids):
             res.violations += check_id(i)
     res.nontrivial = bool(expect) and bool(sent_expect)
-    res.classes = ["route"] + (["noise"] if case.get("noise") else []) + (["send_idless"] if case.get("send_idless") else [])
+    res.classes = ["route"] + (["noise"] if case.get("noise") else []) + (["send_idless"] if case.get("send_idless") else []) + (["reads_not_aligned_to_frames"] if case.get("misalign") else [])
     res.info = {"frames": len(expect), "sent": len(sent_expect)}
     s.close()
     return res
@@ -433,6 +440,8 @@ def _route(draw, tier):
     out = {"kind": "route", "noise": draw(st.booleans()) and all(f[0] <= 65535 for f in frames), "frames": frames, "send": send}
     if draw(st.integers(0, 3)) == 1:
         out["send_idless"] = draw(st.lists(st.sampled_from(idless_names()), min_size=1, max_size=3))
+    if draw(st.integers(0, 2)) == 0:
+        out["misalign"] = draw(st.lists(st.sampled_from([0, 1, 2, 3, 4, 6, 9, 30]), min_size=1, max_size=4))
     return out
 
 
@@ -464,6 +473,11 @@ def enumerated(tier):
     for lo in range(0, len(ids_), 16):
         yield {"kind": "route", "noise": (lo // 16) % 2 == 1, "frames": [[i, {}] for i in ids_[lo:lo + 16]], "send": [[i, {}] for i in cs[lo // 2: lo // 2 + 8]]}
     yield {"kind": "route", "noise": False, "frames": [[7, {}], [5, {}]], "send": []}
+    # reads that end inside the next frame (header only / into the payload), same-size and different-size neighbours
+    for noise in (False, True):
+        for mis in ([1], [2], [3], [4], [6], [4, 0, 6], [9, 9, 1]):
+            yield {"kind": "route", "noise": noise, "misalign": mis, "send": [],
+                   "frames": [[26, {"key": 1, "state": True}], [21, {"key": 2, "state": True}], [26, {"key": 3}], [25, {"key": 4, "state": {"f32": 0x3FC00000}}], [27, {"key": 5, "state": "abcdefgh"}], [21, {"key": 6}], [7, {}], [26, {"key": 7}]]}
     for n in idless_names():
         yield {"kind": "route", "noise": False, "frames": [[8, {}]], "send": [[7, {}], [8, {}]], "send_idless": [n, n]}
     # numbers congruent to declared ids modulo 2^32 / 2^64 are not declared either (plaintext type numbers are varints)
